@@ -22,20 +22,20 @@ func Leaves2() []Leaf2 {
 
 // positions2 selects the leaves that also get a translated copy (into the negative quadrant).
 var positions2 = map[string]v2.Vec{
-	"Circle2D(r=1)":                               {-5, -5},
-	"Box2D(2x1,r=0.25)":                           {-5, -5},
-	"Line2D(l=4,r=0.5)":                           {-5, -5},
-	"Polygon2D(L-shape)":                          {-5, -5},
-	"Mesh2D(triangle)":                            {-5, -5},
-	"FlatFlankCam2D(d=4,rb=2,rn=1)":               {-5, -5},
-	"ThreeArcCam2D(d=4,rb=2,rn=1,rf=min+)":        {-5, -5},
-	"NewFlange1(d=4,rc=2,rs=1)":                   {-5, -5},
-	"GearRack2D(n=4,m=0.5,pa=20,bl=0.0625,h=0.5)": {-5, -5},
-	"ArcSpiral2D(a=0.25,k=1,0..2tau,d=0.125)":     {-5, -5},
-	"CubicSpline2D(5 knots)":                      {-5, -5},
-	"ISOThread(r=2,p=0.5,external)":               {-5, -5},
-	"obj.Hex2D(r=2,round=0.25)":                   {-5, -5},
-	"obj.Washer2D(ri=1,ro=2)":                     {-5, -5},
+	"Circle2D(r=1)":                               xy(-5, -5),
+	"Box2D(2x1,r=0.25)":                           xy(-5, -5),
+	"Line2D(l=4,r=0.5)":                           xy(-5, -5),
+	"Polygon2D(L-shape)":                          xy(-5, -5),
+	"Mesh2D(triangle)":                            xy(-5, -5),
+	"FlatFlankCam2D(d=4,rb=2,rn=1)":               xy(-5, -5),
+	"ThreeArcCam2D(d=4,rb=2,rn=1,rf=min+)":        xy(-5, -5),
+	"NewFlange1(d=4,rc=2,rs=1)":                   xy(-5, -5),
+	"GearRack2D(n=4,m=0.5,pa=20,bl=0.0625,h=0.5)": xy(-5, -5),
+	"ArcSpiral2D(a=0.25,k=1,0..2tau,d=0.125)":     xy(-5, -5),
+	"CubicSpline2D(5 knots)":                      xy(-5, -5),
+	"ISOThread(r=2,p=0.5,external)":               xy(-5, -5),
+	"obj.Hex2D(r=2,round=0.25)":                   xy(-5, -5),
+	"obj.Washer2D(ri=1,ro=2)":                     xy(-5, -5),
 }
 
 //-----------------------------------------------------------------------------
@@ -59,7 +59,7 @@ func sdfLeaves2() []Leaf2 {
 	} {
 		k := k
 		add(mk2(fmt.Sprintf("Box2D(%sx%s,r=%s)", g(k.x), g(k.y), g(k.r)), "Box2D", true, true, func() (sdf.SDF2, error) {
-			return ok2(sdf.Box2D(v2.Vec{k.x, k.y}, k.r))
+			return ok2(sdf.Box2D(xy(k.x, k.y), k.r))
 		}))
 	}
 
@@ -244,10 +244,10 @@ func sdfLeaves2() []Leaf2 {
 		name string
 		v    []v2.Vec
 	}{
-		{"2 knots", []v2.Vec{{0, 0}, {4, 2}}},
-		{"5 knots", []v2.Vec{{0, 0}, {1, 2}, {2, 0}, {3, -2}, {4, 0}}},
-		{"10 knots", []v2.Vec{{0, 0}, {1, 1}, {2, 0}, {3, 1}, {4, 0}, {5, 1}, {6, 0}, {7, 1}, {8, 0}, {9, 1}}},
-		{"12 knots", []v2.Vec{{0, 0}, {1, 1}, {2, 0}, {3, 1}, {4, 0}, {5, 1}, {6, 0}, {7, 1}, {8, 0}, {9, 1}, {10, 0}, {11, 1}}},
+		{"2 knots", pts(0, 0, 4, 2)},
+		{"5 knots", pts(0, 0, 1, 2, 2, 0, 3, -2, 4, 0)},
+		{"10 knots", pts(0, 0, 1, 1, 2, 0, 3, 1, 4, 0, 5, 1, 6, 0, 7, 1, 8, 0, 9, 1)},
+		{"12 knots", pts(0, 0, 1, 1, 2, 0, 3, 1, 4, 0, 5, 1, 6, 0, 7, 1, 8, 0, 9, 1, 10, 0, 11, 1)},
 	} {
 		k := k
 		add(mk2("CubicSpline2D("+k.name+")", "CubicSpline2D", false, false, func() (sdf.SDF2, error) {
@@ -255,7 +255,7 @@ func sdfLeaves2() []Leaf2 {
 		}))
 	}
 	add(mk2("CubicSplineSDF2.PolySpline2D(arch (0,0),(1,2),(3,2),(4,0),n=20)", "CubicSplineSDF2.PolySpline2D", false, false, func() (sdf.SDF2, error) {
-		s, err := sdf.CubicSpline2D([]v2.Vec{{0, 0}, {1, 2}, {3, 2}, {4, 0}})
+		s, err := sdf.CubicSpline2D(pts(0, 0, 1, 2, 3, 2, 4, 0))
 		if err != nil {
 			return nil, err
 		}
@@ -486,11 +486,11 @@ func objLeaves2() []Leaf2 {
 
 	// obj.Panel2D (examples/pico_cnc)
 	add(mk2("obj.Panel2D(8x4,corner=0.5,no holes)", "obj.Panel2D", false, true, func() (sdf.SDF2, error) {
-		return obj.Panel2D(&obj.PanelParms{Size: v2.Vec{8, 4}, CornerRadius: 0.5})
+		return obj.Panel2D(&obj.PanelParms{Size: xy(8, 4), CornerRadius: 0.5})
 	}))
 	add(mk2("obj.Panel2D(40x30,corner=4,hole=3.5,margin=7,pattern=x/xx/x/xx)", "obj.Panel2D", false, true, func() (sdf.SDF2, error) {
 		return obj.Panel2D(&obj.PanelParms{
-			Size:         v2.Vec{40, 30},
+			Size:         xy(40, 30),
 			CornerRadius: 4,
 			HoleDiameter: 3.5,
 			HoleMargin:   [4]float64{7, 7, 7, 7},
@@ -499,7 +499,7 @@ func objLeaves2() []Leaf2 {
 	}))
 	add(mk2("obj.Panel2D(64x48,corner=5,hole=3.5,margin=6,pattern=.x...x on all sides)", "obj.Panel2D", false, true, func() (sdf.SDF2, error) {
 		return obj.Panel2D(&obj.PanelParms{
-			Size:         v2.Vec{64, 48},
+			Size:         xy(64, 48),
 			CornerRadius: 5,
 			HoleDiameter: 3.5,
 			HoleMargin:   [4]float64{6, 6, 6, 6},
